@@ -6,6 +6,7 @@ package main
 import (
 	"fmt"
 	"strings"
+	"time"
 
 	"verif/sched"
 
@@ -89,6 +90,8 @@ func scenario(name string, initN int, progs ...prog) sched.Spec {
 							t.Op("popwait", -1, func() any { v, ok := c.l.PopWait(-1); return popRes{v, ok} })
 						case o == "popwait0":
 							t.Op("pop", 0, func() any { v, ok := c.l.PopWait(0); return popRes{v, ok} })
+						case o == "popwaitT":
+							t.Op("pop", 15, func() any { v, ok := c.l.PopWait(15 * time.Millisecond); return popRes{v, ok} })
 						case o == "len":
 							n := t.Op("len", nil, func() any { return c.l.Len() }).(int)
 							if n < 0 {
@@ -170,9 +173,18 @@ func main() {
 		scenario("push,push|popwait,popwait", 0, prog{"push:1", "push:2"}, prog{"popwait", "popwait"}),
 		scenario("push|push|popwait", 0, prog{"push:1"}, prog{"push:2"}, prog{"popwait"}),
 	)
+	for init := 0; init <= 1; init++ {
+		specs = append(specs,
+			scenario("timed/popwaitT|push", init, prog{"popwaitT"}, prog{"push:1"}),
+			scenario("timed/popwaitT-alone", init, prog{"popwaitT"}),
+		)
+		hs := scenario("timed/popwaitT|popwaitT|push", init, prog{"popwaitT"}, prog{"popwaitT"}, prog{"push:1"})
+		hs.Quick, hs.Heavy = 3, true
+		specs = append(specs, hs)
+	}
 	sched.Main("C11", specs,
 		[]string{
-			"small scope: <= 3 goroutines x <= 2 operations, initial content 0..2; positive PopWait durations (real ticker) are not entered",
+			"small scope: <= 3 goroutines x <= 2 operations, initial content 0..2; positive PopWait durations run on abstract time (the ticker is a daemon virtual thread, no wall clock)",
 			"interleaving at atomic operations is exact for Go's sequentially consistent atomics provided plain accesses are race-free, which the vector-clock detector checks on every explored schedule",
 			"spinning pushers are scheduled fairly (Musuvathi-Qadeer fair yield rule)",
 			"state matching on 128-bit happens-before signatures (collisions assumed away)",
